@@ -27,13 +27,19 @@ def cases(draw, tier):
     # "late" variant: the first build is acyclic (the member that closes the cycle depends on the source only);
     # then its .do is edited so that the cycle exists, and the command under test is a REBUILD
     late = None
-    if draw(st.integers(0, 99)) < 40:
+    if draw(st.integers(0, 99)) < 50:
         closer = cyc[k - 1] + ".do"
         v2 = dofiles[closer]
         v1 = {"v": 1, "body": [stt if stt[0] != "dep" else ["dep", 1, ["s0"]] for stt in v2["body"]]}
-        late = {"dofile": closer, "spec": dict(v2, v=2), "edit_source": draw(st.integers(0, 1))}
+        late = {"dofile": closer, "spec": dict(v2, v=2), "edit_source": draw(st.integers(0, 1)),
+                # the first (acyclic) build may start at the cycle members themselves and also build 0-25 unrelated
+                # targets, so that the entry targets of the run under test are NEW to the database and get ids far
+                # above those of the cycle members (lock ids are compared textually in places)
+                "pad": draw(st.integers(0, 30)), "prebuild_members": draw(st.integers(0, 2)) > 0}
     # acyclic prefix leading into the cycle, and acyclic siblings
     npre = draw(st.integers(0, 3))
+    if late and late["prebuild_members"]:
+        npre = max(1, npre)     # the run under test enters through a target the first build never saw
     pre = []
     nxt = cyc[draw(st.integers(0, k - 1))]
     for i in range(npre):
@@ -60,6 +66,8 @@ def cases(draw, tier):
     entries_pool = cyc + pre + ([second_entry] if second_entry else [])
     n_entry = draw(st.sampled_from([1, 1, 1, 2, 2, 3]))
     entries = sgen._subset(draw, entries_pool, 1, n_entry)
+    if late and late["prebuild_members"] and pre and draw(st.integers(0, 3)) > 0:
+        entries = [pre[draw(st.integers(0, len(pre) - 1))]]
     if draw(st.integers(0, 2)) == 0 and sib:
         entries.insert(draw(st.integers(0, len(entries))), sib[0])
     kind = draw(st.sampled_from(["redo", "redo", "ifchange"]))
@@ -92,6 +100,8 @@ def cases(draw, tier):
     pdof = dict(dofiles)
     if late:
         pdof[late["dofile"]] = v1
+        for i in range(late["pad"]):
+            pdof["z%d.do" % i] = {"v": 1, "body": [["dep", 1, ["s0"]], ["out", "stdout"]]}
     proj = {"dirs": [""], "sources": ["s0"], "dofiles": pdof, "targets": cyc + pre + sib, "watch": []}
     return {"project": proj, "late": late, "invs": [{"argv": argv, "cwd": "", "env": env, "jobserver": js}], "cycle": cyc,
             "entries": entries, "jobs": jobs, "excluded_d8": excluded_d8, "parallel_entries_into_cycle": len(cyc_entries) >= 2 and jobs >= 2,
@@ -106,7 +116,11 @@ def run_case(case, tier):
         late = case.get("late")
         if late:
             inv0 = case["invs"][0]
-            pre = runner.run_cmd(r.disk, ["redo-ifchange"] + hist.M._dedup(case["entries"]), env_extra=inv0["env"])
+            first = hist.M._dedup(case["entries"])
+            if late.get("prebuild_members"):
+                first = [case["cycle"][0]]
+            first = first + ["z%d" % i for i in range(late.get("pad", 0))]
+            pre = runner.run_cmd(r.disk, ["redo-ifchange"] + first, env_extra=inv0["env"])
             r.disk.take_trace()
             if pre.rc != 0:
                 raise runner.Inconclusive("acyclic first build failed: " + pre.text()[-300:])
@@ -114,6 +128,8 @@ def run_case(case, tier):
             if late.get("edit_source"):
                 r.disk.write("s0", hist.P.source_content("s0", 1))
             out.events["c12:cycle-introduced-by-edit-after-acyclic-build"] += 1
+            if late.get("prebuild_members") and late.get("pad"):
+                out.events["c12:entry-targets-new-to-a-populated-database"] += 1
         r.run()
         inv = r.invs[0]
         out.commands = 1
